@@ -24,7 +24,7 @@ ASSUMPTIONS = [
     "results are compared byte for byte; no reference model is involved",
     "the worker process is already warm from earlier cases: 'before the history' means 'first time in this case'",
 ]
-HEALTH = {"history_with_failure": 0.3, "fresh_process": 40}
+HEALTH = {"history_with_failure": 0.12, "fresh_process": 16}
 EXHAUSTIVE = {}
 
 _prog = st.one_of(c13._valid, c13._mutation, c13._tokens)
